@@ -420,6 +420,44 @@ class CInterp:
             return sp.Function(name or "fn")(*args)
         raise AnalysisError("nf: C expression outside the fragment: %s (%s)" % (k, c_text(n)))
 
+    def _unroll(self, st, env):
+        """for (int i = 0; i < N; i++) with a literal N <= self.unroll: the body is executed N times with i bound."""
+        inner = st.get("inner", [])
+        if len(inner) != 5:
+            return False
+        init, _, cond, inc, body = inner
+        if not init or init.get("kind") != "DeclStmt" or not cond or not inc:
+            return False
+        vd = [x for x in init.get("inner", []) if x.get("kind") == "VarDecl"]
+        if len(vd) != 1:
+            return False
+        j = vd[0]["name"]
+        ini = [x for x in vd[0].get("inner", []) if isinstance(x, dict) and x.get("kind")]
+        m = re.match(r"^%s<(\d+)$" % re.escape(j), re.sub(r"\s+", "", c_text(cond)))
+        if not ini or c_text(ini[0]).strip() != "0" or not m or re.sub(r"\s+", "", c_text(inc)) not in (j + "++", "++" + j):
+            return False
+        n = int(m.group(1))
+        if n > self.unroll:
+            return False
+        for i in range(n):
+            env[j] = sp.Integer(i)
+            self.stmt(body, env)
+        return True
+
+    def _rank(self, v):
+        """Rank of a value under the order abstraction (self.order: symbol -> rank), through Max / Min; None if unknown."""
+        order = getattr(self, "order", None)
+        if not order:
+            return None
+        if v in order:
+            return order[v]
+        fn = getattr(getattr(v, "func", None), "__name__", "")
+        if fn in ("Max", "Min"):
+            rs = [self._rank(a) for a in v.args]
+            if all(r is not None for r in rs):
+                return max(rs) if fn == "Max" else min(rs)
+        return None
+
     def decide(self, cond, env):
         key = c_text(cond)
         if key in self.facts:
@@ -428,6 +466,12 @@ class CInterp:
         key2 = str(v)
         if key2 in self.facts:
             return self.facts[key2]
+        if getattr(self, "order", None):
+            fn = getattr(getattr(v, "func", None), "__name__", "")
+            if fn in ("c_lt", "c_gt", "c_le", "c_ge", "c_eq", "c_ne"):
+                a, b = (self._rank(x) for x in v.args)
+                if a is not None and b is not None:
+                    return {"c_lt": a < b, "c_gt": a > b, "c_le": a <= b, "c_ge": a >= b, "c_eq": a == b, "c_ne": a != b}[fn]
         if getattr(self, "numeric_decide", False):
             # comparisons between numbers (a symbolic evaluation at a numeric point, e.g. q = 0) decide themselves
             fn = getattr(getattr(v, "func", None), "__name__", "")
@@ -496,7 +540,15 @@ class CInterp:
             for d in st.get("inner", []):
                 if d.get("kind") == "VarDecl":
                     init = [x for x in d.get("inner", []) if x.get("kind", "").endswith(("Expr", "Operator", "Literal"))]
-                    if init:
+                    if init and init[0].get("kind") == "InitListExpr":
+                        elems = [self.expr(x, env) for x in init[0].get("inner", [])]
+                        ab = getattr(self, "abstract_arrays", None)
+                        if ab and d["name"] in ab and len(ab[d["name"]]) == len(elems):
+                            # order abstraction: the elements are replaced by symbols whose relative order `self.order` gives
+                            self.abstracted = dict(zip(ab[d["name"]], elems))
+                            elems = list(ab[d["name"]])
+                        env[d["name"]] = dict(enumerate(elems))
+                    elif init:
                         env[d["name"]] = self.expr(init[0], env)
                     elif "[" in d["type"]["qualType"]:
                         env[d["name"]] = {}
@@ -506,6 +558,8 @@ class CInterp:
             v = self.expr(st["inner"][0], env) if st.get("inner") else None
             raise CInterp.Return(v)
         elif k == "ForStmt" and getattr(self, "sum_loops", False) and self._sum_loop(st, env):
+            pass
+        elif k == "ForStmt" and getattr(self, "unroll", 0) and self._unroll(st, env):
             pass
         elif k in ("ForStmt", "WhileStmt") and self.opaque_loops:
             self._havoc(st, env)
